@@ -508,10 +508,121 @@ def check_trace(line, size):
     return None, tags, msgs
 
 
+# ------------------------------------------------------------------------------------------------
+# printer tie: declaration lists -> Lean printer (NinjaPrint.render) -> REAL parser -> the same declaration list
+# ------------------------------------------------------------------------------------------------
+def trace_to_items(trace_line, data):
+    """the callback trace of harness mode c17parse, as declaration-stream items in the format of mode c17decls
+    (token texts = the substrings of `data` the tokens cover)"""
+    def T(t):
+        k, st, ln, _, _ = t.split("/")
+        return hx(data[int(st):int(st) + int(ln)])
+
+    def TL(l):
+        return "." if l == "." else ",".join(T(t) for t in l.split(","))
+    items = []
+    for it in trace_line.split(" ")[1:]:
+        f = it.split(":")
+        tag = f[0]
+        if tag in ("bm", "em"):
+            continue
+        if tag == "x":
+            items.append("x")
+        elif tag == "b":
+            items.append("b:%s:%s" % (T(f[1]), T(f[2])))
+        elif tag == "d":
+            items.append("d:" + TL(f[1]))
+        elif tag in ("i", "s"):
+            items.append(tag + ":" + T(f[1]))
+        elif tag == "B":
+            items.append("B:%s:%s:%s:%s:%s" % (T(f[1]), f[2], f[3], TL(f[4]), TL(f[5])))
+        elif tag in ("pb", "pp", "pr"):
+            items.append("p:%s:%s" % (T(f[1]), T(f[2])))
+        elif tag in ("eb", "ep", "er"):
+            items.append("e")
+        elif tag == "P":
+            items.append("P:" + T(f[1]))
+        elif tag == "R":
+            items.append("r:" + T(f[1]))
+        else:
+            items.append("?" + it)
+    return items
+
+
+def split_decl_line(line):
+    """'wd:.. file:<hex> items.. file:<hex> items..' -> [(path-hex, [items])]"""
+    out = []
+    for tok in line.split(" "):
+        if tok.startswith("file:"):
+            out.append((tok[5:], []))
+        elif tok and not tok.startswith("wd:") and out:
+            out[-1][1].append(tok)
+    return out
+
+
+PATH_BITS = [b"a", b"b.c", b"o", b"/", b"dir/", b"$ ", b"$:", b"$$", b"#", b"=", b"\xff", b"\x00", b"\x80x", b"${v}", b"$v", b"build", b"rule", b"-", b"'", b'"', b"\\",
+             b"$x", b"@", b"~", b";", b"&", b"(", b"*"]
+VALUE_BITS = [b"cc", b" ", b" ", b"$in", b"-o", b"$out", b"#c", b"$ ", b"\xfe", b"=", b":", b"|", b"||", b"'q'", b"$$", b"${x.y}", b"\t", b"\x00", b"rule", b"$:"]
+NAME_BITS = [b"x", b"cflags", b"a.b-c_1", b"build", b"rule", b"pool", b"default", b"include", b"subninja", b"command", b"depth", b"X9", b"_", b"-", b"."]
+
+
+def gen_decl_items(rng):
+    """a random declaration list in the item format of harness mode c17decls; mostly printable, sometimes deliberately not
+    (raw blank / `|` / newline in a path, leading blank or `$` at the end of a value, keyword as top-level name, empty lists)"""
+    def path():
+        p = b"".join(rng.choice(PATH_BITS) for _ in range(1 + rng.below(4)))
+        if rng.chance(1, 25):
+            p += rng.choice([b" ", b"|", b":", b"\n", b"$", b"\t", b""])
+        return p
+
+    def value():
+        v = b"".join(rng.choice(VALUE_BITS) for _ in range(1 + rng.below(6)))
+        if rng.chance(9, 10):
+            v = v.lstrip(b" \t") or b"v"
+        if rng.chance(1, 25):
+            v += rng.choice([b"$", b"\r", b"$\n x"])
+        return v
+
+    def name(top):
+        n = rng.choice(NAME_BITS)
+        if top and n in (b"build", b"rule", b"pool", b"default", b"include", b"subninja") and rng.chance(9, 10):
+            n += b"2"
+        return n
+
+    def hl(l):
+        return "." if not l else ",".join(hx(x) for x in l)
+    items = []
+    for _ in range(1 + rng.below(6)):
+        k = rng.below(8)
+        binds = ["p:%s:%s" % (hx(name(False)), hx(value())) for _ in range(rng.below(3))]
+        if k == 0:
+            items.append("b:%s:%s" % (hx(name(True)), hx(value())))
+        elif k == 1:
+            items += ["r:" + hx(name(False))] + binds + ["e"]
+        elif k == 2:
+            items += ["P:" + hx(name(False))] + binds + ["e"]
+        elif k in (3, 4, 5):
+            outs = [path() for _ in range(1 + rng.below(2))] if rng.chance(19, 20) else []
+            ins = [path() for _ in range(rng.below(5))]
+            a = rng.below(len(ins) + 1)
+            c = rng.below(len(ins) - a + 1)
+            if rng.chance(1, 30):
+                c = len(ins) + 1
+            items += ["B:%s:%d:%d:%s:%s" % (hx(name(False)), a, c, hl(outs), hl(ins))] + binds + ["e"]
+        elif k == 6:
+            items.append("d:" + hl([path() for _ in range(rng.below(3) if rng.chance(1, 10) else 1 + rng.below(3))]))
+        else:
+            items.append(rng.choice(["i:", "s:"]) + hx(path()))
+    return items
+
+
 # theorems of lean/LLBuild/Props/C17Parse.lean (the parser between the two halves); audited by c17.py / c19.py
 PARSER_C17_THEOREMS = ["LLBuild.NinjaParser." + t for t in [
     "C17_parser_build_shape", "C17_parser_rule_shape", "C17_parser_pool_shape", "C17_parser_binding_shape",
-    "C17_parser_binding_shape_empty", "C17_parser_include_shape", "C17_parser_default_shape", "C17_keywords_only_at_statement_start", "C17_pipeline_agrees"]]
+    "C17_parser_binding_shape_empty", "C17_parser_include_shape", "C17_parser_default_shape", "C17_keywords_only_at_statement_start", "C17_pipeline_agrees"]] + \
+    ["LLBuild.NinjaPrint." + t for t in [
+        "C17_lex_printed_token", "C17_lex_printed_line", "C17_escPath_roundtrip", "C17_print_parse_statement", "C17_print_parse_roundtrip",
+        "C17_manifest_text_means_spec"]]
 PARSER_C19_THEOREMS = ["LLBuild.NinjaParser." + t for t in [
     "C19_ninja_parser_total", "C19_ninja_parser_no_oob", "C19_ninja_parser_terminates", "C19_ninja_parser_reports_via_callbacks"]]
 
@@ -613,7 +724,7 @@ class Check(PropertyCheck):
             shutil.rmtree(d, ignore_errors=True)
 
     # ---------------------------------------------------------------------------------------
-    def correspond_parser(self, ctx, res, cases, lines, real, exe):
+    def correspond_parser(self, ctx, res, cases, lines, real, exe, decls=None):
         """stream `parser`: real Parser callbacks == Lean parser model (over the Lean lexer model), and the pure-Lean pipeline
         (mode c17full) == real ManifestLoader.  Draws from its own generator stream, so the other streams are unchanged."""
         from . import c11
@@ -709,9 +820,52 @@ class Check(PropertyCheck):
                     res.mismatches.append({"stream": "parser-pipeline", "input": {"files": [[n.decode("latin1"), t.decode("latin1")] for n, t in c["files"]],
                                                                                   "files_hex": [[n.hex(), t.hex()] for n, t in c["files"]], "kind": c["kind"]},
                                            "model": repr(diff)[:300] if diff else m[-200:], "impl": r[:100] if not diff else ""})
-        res.evaluations += len(inputs) + npipe
+        # printer tie: every declaration list (those the REAL parser printed for the generated manifests, plus random ones) goes through the
+        # Lean printer (driver mode c17render = NinjaPrint.render, or U when not Printable); the printed bytes go to the REAL parser; its
+        # callbacks, read as a declaration stream, must be the list that was printed, with no error callback
+        render = {"lists": 0, "printable": 0, "unprintable": 0, "statements_compared": 0, "printed_bytes": 0, "disagreements": 0, "by_source": {}}
+        dlines = []
+        for c, dl in zip(cases, decls or []):
+            if dl.startswith("wd:"):
+                dlines.append((dl, "generated-" + c["kind"]))
+        if not replay:
+            for i in range(6000 if ctx.thorough else 600):
+                dlines.append(("wd:%s file:%s %s" % (hx(WD), hx(WD + b"/r.ninja"), " ".join(gen_decl_items(rng))), "random-lists"))
+        rrc, rout, rerr = self.run_model("c17render", [d for d, _ in dlines])
+        if ctx.model_ok and not (rrc == 0 and len(rout) == len(dlines)):
+            res.mismatches.append({"stream": "render", "input": "model driver (mode c17render) exit %d, %d of %d lines" % (rrc, len(rout), len(dlines)), "model": rerr[-400:]})
+        elif rrc == 0:
+            todo = []                                 # (rendered bytes, expected items, source)
+            for (dl, src), ro in zip(dlines, rout):
+                files = split_decl_line(dl)
+                outs = [f.split(":") for f in ro.split(" ")[1:]] if ro.startswith("ok") else []
+                if len(outs) != len(files):
+                    res.mismatches.append({"stream": "render", "input": dl[:400], "model": ro[:200]})
+                    continue
+                for (ph, items), f in zip(files, outs):
+                    render["lists"] += 1
+                    if f[2] == "U":
+                        render["unprintable"] += 1
+                        continue
+                    render["printable"] += 1
+                    render["by_source"][src] = render["by_source"].get(src, 0) + 1
+                    todo.append((C.unhex(f[2]), items, src))
+            tout, trestarts = c11.run_attributed([exe, "c17parse"], [hx(d) for d, _, _ in todo], watchdog=600)
+            for (data, items, src), h in zip(todo, tout):
+                render["printed_bytes"] += len(data)
+                got = trace_to_items(h, data) if h.startswith("ok") else ["<%s>" % h[:80]]
+                render["statements_compared"] += len(items)
+                if got != items:
+                    render["disagreements"] += 1
+                    if len([m for m in res.mismatches if m.get("stream") == "render"]) < 10:
+                        k = next((j for j, (x, y) in enumerate(zip(got, items)) if x != y), min(len(got), len(items)))
+                        res.mismatches.append({"stream": "render", "input": {"files": [["build.ninja", data.decode("latin1")]], "files_hex": [[b"build.ninja".hex(), data.hex()]],
+                                                                             "kind": "malformed", "printed_from": " ".join(items)[:600]},
+                                               "model": "printed list, item %d: %s" % (k, " ".join(items[k:k + 2])[:300]),
+                                               "impl": "real parser on the printed bytes, item %d: %s" % (k, " ".join(got[k:k + 2])[:300])})
+        res.evaluations += len(inputs) + npipe + render["printable"]
         res.distinct_nontrivial += len(nontrivial)
-        return {"manifests": len(inputs), "by_stream": by_stream, "callbacks_compared": compared_items,
+        return {"render": render, "manifests": len(inputs), "by_stream": by_stream, "callbacks_compared": compared_items,
                 "callbacks_by_kind": dict(sorted(item_counts.items())), "manifests_with_parse_errors": n_err_manifests,
                 "error_callbacks_by_message": dict(sorted(msg_counts.items())), "manifests_by_error_message": dict(sorted(msg_manifests.items())),
                 "distinct_callback_and_error_sets": len(nontrivial), "harness_restarts": restarts,
@@ -870,7 +1024,7 @@ class Check(PropertyCheck):
         res.oracle_failures[:] = first + rest
         res.evaluations += len(cases)
         res.distinct_nontrivial += spec_valid
-        parser_dist = self.correspond_parser(ctx, res, cases, lines, real, exe)
+        parser_dist = self.correspond_parser(ctx, res, cases, lines, real, exe, decls)
         res.distribution = {"parser": parser_dist, "cases": len(cases), "valid_stream": sum(1 for c in cases if c["kind"] == "valid"),
                             "malformed_stream": sum(1 for c in cases if c["kind"] != "valid"),
                             "in_spec_fragment": spec_valid, "features": feat, "loader_error_kinds": errkinds,
